@@ -1,24 +1,619 @@
 package main
 
+// Mode B: concrete native Go values (go/types objects, ...) inside the symbolic executor.
+//
+// A symbolic value may be a guarded union of concrete native objects (VNative) or of constant
+// strings (VStr.Alts). Calls into a small whitelist of pure library functions are executed natively
+// by reflection, once per combination of alternatives, and the results merged under the guards.
+
 import (
+	"fmt"
 	"go/types"
+	"reflect"
+	"sort"
+	"strconv"
+	"strings"
+	"unicode"
 
 	"golang.org/x/tools/go/ssa"
 )
 
-// Mode B: concrete native values (go/types objects etc.) inside the symbolic executor.
-type NativeEnv struct{}
+type NativeEnv struct {
+	Funcs   map[string]reflect.Value // "go/types.AssignableTo" -> func
+	Globals map[string]reflect.Value // "go/types.Typ" -> value
+	Types   map[string]reflect.Type  // "*go/types.Named" -> reflect type
+	Calls   int
+	placeholder map[string]types.Type
+}
 
-func (ex *Exec) nativeEq(x, y Value) *Term { panic(unsupported("native ==")) }
-func (ex *Exec) nativeTypeAssert(fr *Frame, nv *VNative, i *ssa.TypeAssert) Value {
-	panic(unsupported("native type assert"))
+func NewNativeEnv() *NativeEnv {
+	n := &NativeEnv{Funcs: map[string]reflect.Value{}, Globals: map[string]reflect.Value{}, Types: map[string]reflect.Type{}, placeholder: map[string]types.Type{}}
+	f := func(name string, fn interface{}) { n.Funcs[name] = reflect.ValueOf(fn) }
+	f("go/types.AssignableTo", types.AssignableTo)
+	f("go/types.ConvertibleTo", types.ConvertibleTo)
+	f("go/types.Identical", types.Identical)
+	f("go/types.Comparable", types.Comparable)
+	f("go/types.Default", types.Default)
+	f("go/types.TypeString", types.TypeString)
+	f("go/types.NewPackage", types.NewPackage)
+	f("go/types.NewTypeName", types.NewTypeName)
+	f("go/types.NewNamed", types.NewNamed)
+	f("go/types.NewSlice", types.NewSlice)
+	f("go/types.NewPointer", types.NewPointer)
+	f("go/types.NewArray", types.NewArray)
+	f("go/types.NewMap", types.NewMap)
+	f("go/types.NewVar", types.NewVar)
+	f("go/types.NewField", types.NewField)
+	f("go/types.NewStruct", types.NewStruct)
+	f("go/types.NewTuple", types.NewTuple)
+	f("go/types.NewSignature", types.NewSignature)
+	f("strconv.Itoa", strconv.Itoa)
+	f("strconv.Quote", strconv.Quote)
+	f("strings.HasPrefix", strings.HasPrefix)
+	f("strings.HasSuffix", strings.HasSuffix)
+	f("strings.Contains", strings.Contains)
+	f("strings.Replace", strings.Replace)
+	f("strings.Split", strings.Split)
+	f("strings.LastIndex", strings.LastIndex)
+	f("strings.Index", strings.Index)
+	f("strings.TrimPrefix", strings.TrimPrefix)
+	f("strings.ToUpper", strings.ToUpper)
+	f("strings.ToLower", strings.ToLower)
+	f("strings.Title", strings.Title)
+	f("unicode.IsUpper", unicode.IsUpper)
+	f("unicode.ToUpper", unicode.ToUpper)
+	n.Globals["go/types.Typ"] = reflect.ValueOf(types.Typ)
+	n.Globals["go/types.Universe"] = reflect.ValueOf(types.Universe)
+	for _, z := range []interface{}{(*types.Named)(nil), (*types.Basic)(nil), (*types.Pointer)(nil), (*types.Slice)(nil), (*types.Array)(nil),
+		(*types.Map)(nil), (*types.Struct)(nil), (*types.Signature)(nil), (*types.Tuple)(nil), (*types.Interface)(nil), (*types.Chan)(nil),
+		(*types.Package)(nil), (*types.TypeName)(nil), (*types.Var)(nil), (*types.Alias)(nil), (*types.Scope)(nil)} {
+		t := reflect.TypeOf(z)
+		n.Types["*"+t.Elem().PkgPath()+"."+t.Elem().Name()] = t
+	}
+	return n
 }
-func (ex *Exec) nativeInvoke(fr *Frame, nv *VNative, method string, args []Value, resT types.Type) Value {
-	panic(unsupported("native invoke"))
+
+func isNativePkgPath(p string) bool {
+	return p == "go/types" || p == "strconv" || p == "strings" || p == "unicode" || p == "go/token"
 }
-func (ex *Exec) nativeCallValue(fr *Frame, nv *VNative, args []Value, resT types.Type) Value {
-	panic(unsupported("native call value"))
+
+// progType maps a native dynamic type to the analysed program's types.Type.
+func (ex *Exec) progType(rt reflect.Type) types.Type {
+	key := rt.String()
+	if t, ok := ex.Native.placeholder[key]; ok {
+		return t
+	}
+	var res types.Type
+	base := rt
+	ptr := false
+	if rt.Kind() == reflect.Pointer {
+		base, ptr = rt.Elem(), true
+	}
+	if base.PkgPath() != "" && base.Name() != "" {
+		for _, p := range ex.prog.AllPackages() {
+			if p.Pkg.Path() == base.PkgPath() {
+				if o := p.Pkg.Scope().Lookup(base.Name()); o != nil {
+					res = o.Type()
+					if ptr {
+						res = types.NewPointer(res)
+					}
+				}
+			}
+		}
+	}
+	if res == nil {
+		res = types.NewNamed(types.NewTypeName(0, nil, "native:"+key, nil), types.NewStruct(nil, nil), nil)
+	}
+	ex.Native.placeholder[key] = res
+	return res
 }
+
+type lowAlt struct {
+	G *Term
+	V reflect.Value
+}
+
+// lower enumerates the concrete alternatives of a symbolic value as native values of type rt.
+func (ex *Exec) lower(fr *Frame, v Value, rt reflect.Type) []lowAlt {
+	ts := ex.ts
+	one := func(x reflect.Value) []lowAlt { return []lowAlt{{ts.True, x}} }
+	switch x := v.(type) {
+	case nil:
+		return one(reflect.Zero(rt))
+	case *VBV:
+		var out []lowAlt
+		var walk func(t *Term, g *Term)
+		walk = func(t *Term, g *Term) {
+			if g.IsFalse() {
+				return
+			}
+			if t.Op == OConst {
+				rv := reflect.New(rt).Elem()
+				switch rt.Kind() {
+				case reflect.Bool:
+					rv.SetBool(t.Val == 1)
+				case reflect.Int, reflect.Int8, reflect.Int16, reflect.Int32, reflect.Int64:
+					rv.SetInt(sext64(t.Val, t.W))
+				case reflect.Uint, reflect.Uint8, reflect.Uint16, reflect.Uint32, reflect.Uint64, reflect.Uintptr:
+					rv.SetUint(t.Val)
+				default:
+					panic(unsupported("native argument of kind " + rt.Kind().String()))
+				}
+				out = append(out, lowAlt{g, rv})
+				return
+			}
+			if t.Op == OIte && t.CT {
+				walk(t.Args[1], ts.And(g, t.Args[0]))
+				walk(t.Args[2], ts.And(g, ts.Not(t.Args[0])))
+				return
+			}
+			if t.W == 0 {
+				// a symbolic boolean: split
+				rt1, rf := reflect.New(rt).Elem(), reflect.New(rt).Elem()
+				rt1.SetBool(true)
+				out = append(out, lowAlt{ts.And(g, t), rt1}, lowAlt{ts.And(g, ts.Not(t)), rf})
+				return
+			}
+			panic(unsupported("symbolic integer passed to a native function"))
+		}
+		walk(x.T, ts.True)
+		return out
+	case *VStr:
+		if x.Alts != nil {
+			var out []lowAlt
+			for _, a := range x.Alts {
+				out = append(out, lowAlt{a.G, reflect.ValueOf(a.S).Convert(rt)})
+			}
+			return out
+		}
+		panic(unsupported("symbolic string passed to a native function"))
+	case *VNative:
+		if len(x.Alts) == 0 {
+			return one(reflect.Zero(rt))
+		}
+		var out []lowAlt
+		nn := ts.False
+		for _, a := range x.Alts {
+			rv := reflect.ValueOf(a.V)
+			if !rv.IsValid() {
+				rv = reflect.Zero(rt)
+			} else if rv.Type() != rt && rv.Type().ConvertibleTo(rt) && rt.Kind() != reflect.Interface {
+				rv = rv.Convert(rt)
+			}
+			out = append(out, lowAlt{a.G, rv})
+			nn = ts.Or(nn, a.G)
+		}
+		if !nn.IsTrue() {
+			out = append(out, lowAlt{ts.Not(nn), reflect.Zero(rt)})
+		}
+		return out
+	case *VIface:
+		if len(x.Alts) == 0 {
+			return one(reflect.Zero(rt))
+		}
+		var out []lowAlt
+		nn := ts.False
+		for _, a := range x.Alts {
+			inner := ex.lower(fr, a.V, ex.reflectTypeOf(a.T, rt))
+			for _, l := range inner {
+				out = append(out, lowAlt{ts.And(a.G, l.G), l.V})
+			}
+			nn = ts.Or(nn, a.G)
+		}
+		if !nn.IsTrue() {
+			out = append(out, lowAlt{ts.Not(nn), reflect.Zero(rt)})
+		}
+		return out
+	case *VPtr:
+		if len(x.Alts) == 0 {
+			return one(reflect.Zero(rt))
+		}
+		panic(unsupported("pointer to symbolic memory passed to a native function"))
+	case *VFunc:
+		if len(x.Alts) == 0 {
+			return one(reflect.Zero(rt))
+		}
+		// callbacks are not executed: a stub returning zero values (e.g. a types.Qualifier returning "")
+		fn := reflect.MakeFunc(rt, func(args []reflect.Value) []reflect.Value {
+			out := make([]reflect.Value, rt.NumOut())
+			for i := range out {
+				out[i] = reflect.Zero(rt.Out(i))
+			}
+			return out
+		})
+		return one(fn)
+	case *VSlice:
+		if len(x.Alts) == 0 {
+			return one(reflect.Zero(rt))
+		}
+		if len(x.Alts) != 1 || !x.Alts[0].Len.IsConst() || !x.Alts[0].Off.IsConst() {
+			panic(unsupported("symbolic-length slice passed to a native function"))
+		}
+		a := x.Alts[0]
+		n, off := int(a.Len.Val), int(a.Off.Val)
+		arr := fr.heapGet(a.Obj).(*VArr)
+		combos := []lowAlt{{a.G, reflect.MakeSlice(rt, n, n)}}
+		for i := 0; i < n; i++ {
+			els := ex.lower(fr, arr.E[off+i], rt.Elem())
+			var next []lowAlt
+			for _, c := range combos {
+				for _, e := range els {
+					g := ts.And(c.G, e.G)
+					if g.IsFalse() {
+						continue
+					}
+					s := reflect.MakeSlice(rt, n, n)
+					reflect.Copy(s, c.V)
+					s.Index(i).Set(e.V)
+					next = append(next, lowAlt{g, s})
+				}
+			}
+			combos = next
+			if len(combos) > 256 {
+				panic(unsupported("too many native argument combinations"))
+			}
+		}
+		if !a.G.IsTrue() {
+			combos = append(combos, lowAlt{ts.Not(a.G), reflect.Zero(rt)})
+		}
+		return combos
+	}
+	panic(unsupported(fmt.Sprintf("cannot pass %T to a native function", v)))
+}
+
+func (ex *Exec) reflectTypeOf(t types.Type, def reflect.Type) reflect.Type {
+	if rt, ok := ex.Native.Types[t.String()]; ok {
+		return rt
+	}
+	switch u := t.Underlying().(type) {
+	case *types.Basic:
+		switch u.Kind() {
+		case types.String:
+			return reflect.TypeOf("")
+		case types.Int:
+			return reflect.TypeOf(0)
+		case types.Bool:
+			return reflect.TypeOf(false)
+		}
+	}
+	return def
+}
+
+// lift converts a native value to a symbolic one according to the program's static type.
+func (ex *Exec) lift(fr *Frame, rv reflect.Value, t types.Type) Value {
+	ts := ex.ts
+	if t == nil {
+		return nil
+	}
+	switch u := t.Underlying().(type) {
+	case *types.Basic:
+		switch {
+		case u.Info()&types.IsBoolean != 0:
+			return &VBV{ts.Bool(rv.Bool())}
+		case u.Info()&types.IsString != 0:
+			return ex.strConst(rv.String())
+		case u.Info()&types.IsInteger != 0:
+			w, signed := ex.intW(t)
+			if signed {
+				return &VBV{ts.BV(uint64(rv.Int()), w)}
+			}
+			return &VBV{ts.BV(rv.Uint(), w)}
+		}
+	case *types.Interface:
+		if !rv.IsValid() || rv.IsNil() {
+			return &VIface{}
+		}
+		dyn := rv.Elem()
+		return &VIface{[]IfaceAlt{{ts.True, ex.progType(dyn.Type()), ex.liftDyn(fr, dyn)}}}
+	case *types.Pointer, *types.Signature, *types.Map, *types.Chan:
+		if rv.Kind() != reflect.Func && rv.IsNil() {
+			return &VNative{}
+		}
+		return &VNative{[]NatAlt{{ts.True, rv.Interface()}}}
+	case *types.Slice:
+		if rv.IsNil() {
+			return &VSlice{}
+		}
+		n := rv.Len()
+		o := ex.newObj(types.NewArray(u.Elem(), int64(n)), "native slice")
+		o.N = n
+		arr := &VArr{E: make([]Value, n)}
+		for i := 0; i < n; i++ {
+			arr.E[i] = ex.lift(fr, rv.Index(i), u.Elem())
+		}
+		fr.heap[o] = arr
+		return &VSlice{[]SliceAlt{{ts.True, o, ts.BV(0, 64), ts.BV(uint64(n), 64), ts.BV(uint64(n), 64)}}}
+	case *types.Tuple:
+		e := make([]Value, u.Len())
+		for i := range e {
+			e[i] = ex.lift(fr, rv.Index(i), u.At(i).Type())
+		}
+		return &VTuple{e}
+	case *types.Struct:
+		return &VNative{[]NatAlt{{ts.True, rv.Interface()}}}
+	}
+	panic(unsupported("cannot lift native result of type " + t.String()))
+}
+
+func (ex *Exec) liftDyn(fr *Frame, rv reflect.Value) Value {
+	ts := ex.ts
+	switch rv.Kind() {
+	case reflect.Bool:
+		return &VBV{ts.Bool(rv.Bool())}
+	case reflect.String:
+		return ex.strConst(rv.String())
+	case reflect.Int, reflect.Int8, reflect.Int16, reflect.Int32, reflect.Int64:
+		return &VBV{ts.BV(uint64(rv.Int()), int(rv.Type().Size())*8)}
+	}
+	return &VNative{[]NatAlt{{ts.True, rv.Interface()}}}
+}
+
+// callNative calls fn over every combination of argument alternatives and merges the results.
+func (ex *Exec) callNative(fr *Frame, fn reflect.Value, args []Value, resT types.Type, what string) Value {
+	ts := ex.ts
+	ft := fn.Type()
+	type combo struct {
+		G *Term
+		A []reflect.Value
+	}
+	combos := []combo{{ts.True, nil}}
+	np := ft.NumIn()
+	for i := 0; i < len(args); i++ {
+		var pt reflect.Type
+		if ft.IsVariadic() && i >= np-1 {
+			pt = ft.In(np - 1) // the packed slice
+		} else {
+			pt = ft.In(i)
+		}
+		alts := ex.lower(fr, args[i], pt)
+		var next []combo
+		for _, c := range combos {
+			for _, a := range alts {
+				g := ts.And(c.G, a.G)
+				if g.IsFalse() {
+					continue
+				}
+				next = append(next, combo{g, append(append([]reflect.Value{}, c.A...), a.V)})
+			}
+		}
+		combos = next
+		if len(combos) > 4096 {
+			panic(unsupported("too many native argument combinations"))
+		}
+	}
+	var res Value
+	for k := len(combos) - 1; k >= 0; k-- {
+		c := combos[k]
+		ex.Native.Calls++
+		var outs []reflect.Value
+		panicked := false
+		func() {
+			defer func() {
+				if r := recover(); r != nil {
+					// on a feasible path the real program panics here too: a panic obligation
+					panicked = true
+					fr.panicIf(c.G, nil, fmt.Sprintf("native call %s panicked: %v", what, r))
+				}
+			}()
+			if ft.IsVariadic() {
+				outs = fn.CallSlice(c.A)
+			} else {
+				outs = fn.Call(c.A)
+			}
+		}()
+		if panicked {
+			if k == len(combos)-1 && resT != nil {
+				res = ex.zero(resT)
+			}
+			continue
+		}
+		var r Value
+		switch len(outs) {
+		case 0:
+		case 1:
+			r = ex.lift(fr, outs[0], resT)
+		default:
+			tt := resT.(*types.Tuple)
+			e := make([]Value, len(outs))
+			for i := range outs {
+				e[i] = ex.lift(fr, outs[i], tt.At(i).Type())
+			}
+			r = &VTuple{e}
+		}
+		if k == len(combos)-1 {
+			res = r
+		} else if r != nil {
+			res = ex.merge(c.G, r, res)
+		}
+	}
+	if res == nil && resT != nil && len(combos) == 0 {
+		res = ex.zero(resT)
+	}
+	return res
+}
+
+func resultType(sig *types.Signature) types.Type {
+	switch sig.Results().Len() {
+	case 0:
+		return nil
+	case 1:
+		return sig.Results().At(0).Type()
+	}
+	return sig.Results()
+}
+
+// nativeCall intercepts static calls into the whitelisted native packages.
 func (ex *Exec) nativeCall(fr *Frame, fn *ssa.Function, args []Value, pc *Term, in ssa.Instruction) (Value, bool) {
+	if fn.Pkg == nil || !isNativePkgPath(fn.Pkg.Pkg.Path()) {
+		return nil, false
+	}
+	resT := resultType(fn.Signature)
+	if fn.Signature.Recv() != nil {
+		// method on a native receiver
+		recv := args[0]
+		return ex.nativeMethod(fr, recv, fn.Name(), args[1:], resT), true
+	}
+	key := fn.Pkg.Pkg.Path() + "." + fn.Name()
+	f, ok := ex.Native.Funcs[key]
+	if !ok {
+		panic(unsupported("native function not whitelisted: " + key))
+	}
+	return ex.callNative(fr, f, args, resT, key), true
+}
+
+func (ex *Exec) nativeMethod(fr *Frame, recv Value, name string, args []Value, resT types.Type) Value {
+	var alts []NatAlt
+	switch r := recv.(type) {
+	case *VNative:
+		alts = r.Alts
+	case *VIface:
+		for _, a := range r.Alts {
+			if nv, ok := a.V.(*VNative); ok {
+				for _, n := range nv.Alts {
+					alts = append(alts, NatAlt{ex.ts.And(a.G, n.G), n.V})
+				}
+			} else {
+				panic(unsupported("native method on non-native receiver"))
+			}
+		}
+	default:
+		panic(unsupported(fmt.Sprintf("native method %s on %T", name, recv)))
+	}
+	if len(alts) == 0 {
+		panic(unsupported("native method " + name + " on nil receiver"))
+	}
+	var res Value
+	for k := len(alts) - 1; k >= 0; k-- {
+		a := alts[k]
+		m := reflect.ValueOf(a.V).MethodByName(name)
+		if !m.IsValid() {
+			panic(unsupported("native method not found: " + name))
+		}
+		r := ex.callNative(fr, m, args, resT, fmt.Sprintf("(%T).%s", a.V, name))
+		if k == len(alts)-1 {
+			res = r
+		} else if r != nil {
+			res = ex.merge(a.G, r, res)
+		}
+	}
+	return res
+}
+
+func (ex *Exec) nativeInvoke(fr *Frame, nv *VNative, method string, args []Value, resT types.Type) Value {
+	return ex.nativeMethod(fr, nv, method, args, resT)
+}
+
+func (ex *Exec) nativeCallValue(fr *Frame, nv *VNative, args []Value, resT types.Type) Value {
+	panic(unsupported("call of a native function value"))
+}
+
+func (ex *Exec) natAlts(v Value) ([]NatAlt, bool) {
+	switch x := v.(type) {
+	case *VNative:
+		return x.Alts, true
+	case *VPtr:
+		if len(x.Alts) == 0 {
+			return nil, true
+		}
+	case *VIface:
+		if len(x.Alts) == 0 {
+			return nil, true
+		}
+	case *VFunc:
+		if len(x.Alts) == 0 {
+			return nil, true
+		}
+	}
 	return nil, false
+}
+
+// nativeEq: identity comparison of native references (and nil).
+func (ex *Exec) nativeEq(x, y Value) *Term {
+	ts := ex.ts
+	xa, ok1 := ex.natAlts(x)
+	ya, ok2 := ex.natAlts(y)
+	if !ok1 || !ok2 {
+		panic(unsupported("comparison of native and symbolic values"))
+	}
+	nn := func(a []NatAlt) *Term {
+		gs := make([]*Term, len(a))
+		for i := range a {
+			gs[i] = a[i].G
+		}
+		return ts.Or(gs...)
+	}
+	cs := []*Term{ts.And(ts.Not(nn(xa)), ts.Not(nn(ya)))}
+	for _, p := range xa {
+		for _, q := range ya {
+			if natSame(p.V, q.V) {
+				cs = append(cs, ts.And(p.G, q.G))
+			}
+		}
+	}
+	return ts.Or(cs...)
+}
+
+func (ex *Exec) nativeTypeAssert(fr *Frame, nv *VNative, i *ssa.TypeAssert) Value {
+	panic(unsupported("type assertion directly on a native value"))
+}
+
+// nativeGlobalInit returns the initial content of a global of a native package.
+func (ex *Exec) nativeGlobalInit(fr *Frame, g *ssa.Global) (Value, bool) {
+	if ex.Native == nil || g.Pkg == nil || !isNativePkgPath(g.Pkg.Pkg.Path()) {
+		return nil, false
+	}
+	rv, ok := ex.Native.Globals[g.Pkg.Pkg.Path()+"."+g.Name()]
+	if !ok {
+		panic(unsupported("native global not whitelisted: " + g.Pkg.Pkg.Path() + "." + g.Name()))
+	}
+	return ex.lift(fr, rv, g.Type().(*types.Pointer).Elem()), true
+}
+
+// strFromAlts builds the byte/length view of a guarded union of constant strings.
+func (ex *Exec) strFromAlts(alts []StrAlt) *VStr {
+	ts := ex.ts
+	// merge equal strings
+	sort.SliceStable(alts, func(i, j int) bool { return alts[i].S < alts[j].S })
+	var m []StrAlt
+	for _, a := range alts {
+		if a.G.IsFalse() {
+			continue
+		}
+		if len(m) > 0 && m[len(m)-1].S == a.S {
+			m[len(m)-1].G = ts.Or(m[len(m)-1].G, a.G)
+		} else {
+			m = append(m, a)
+		}
+	}
+	maxLen := 0
+	for _, a := range m {
+		if len(a.S) > maxLen {
+			maxLen = len(a.S)
+		}
+	}
+	out := &VStr{Alts: m, B: make([]*Term, maxLen)}
+	if len(m) == 0 {
+		out.Len = ts.BV(0, 64)
+		out.Alts = []StrAlt{}
+		return out
+	}
+	ln := ts.BV(uint64(len(m[len(m)-1].S)), 64)
+	for k := len(m) - 2; k >= 0; k-- {
+		ln = ts.Ite(m[k].G, ts.BV(uint64(len(m[k].S)), 64), ln)
+	}
+	out.Len = ln
+	for i := 0; i < maxLen; i++ {
+		at := func(s string) *Term {
+			if i < len(s) {
+				return ts.BV(uint64(s[i]), 8)
+			}
+			return ts.BV(0, 8)
+		}
+		b := at(m[len(m)-1].S)
+		for k := len(m) - 2; k >= 0; k-- {
+			b = ts.Ite(m[k].G, at(m[k].S), b)
+		}
+		out.B[i] = b
+	}
+	return out
 }
